@@ -346,7 +346,8 @@ def reg_cases(draw):
     if spec.get("layout") and draw(st.booleans()):
         spec["layout"]["slug"] = draw(st.sampled_from(["MyLayout", "x"]))
     w = [draw(st.sampled_from([0.0, 1.0, 0.5]) | gen.fl(0, 1)) for _ in spec["ids"]]
-    return dict(reg=spec, weights=w, slug=draw(st.sampled_from([None, "dm"])))
+    return dict(reg=spec, weights=w, slug=draw(st.sampled_from([None, "dm"])),
+                perm=list(draw(st.permutations(list(range(len(spec["ids"])))))))
 
 
 def check_register(case, ctx: Ctx):
@@ -395,6 +396,34 @@ def check_register(case, ctx: Ctx):
     if d2 != dm or d2.slug != dm.slug or tuple(d2.weights) != tuple(dm.weights) or not np.array_equal(
             d2.trap_coordinates, dm.trap_coordinates):
         ctx.fail(C, "legacy:detuning_map", "")
+    # abstract representation of detuning maps (2D only: the schema has no z), for the map
+    # of the register (traps in qubit order) and for one with the traps given in a drawn order
+    if spec["dim"] == 2:
+        from pulser.json.abstract_repr.deserializer import _deserialize_det_map
+        from pulser.json.abstract_repr.serializer import AbstractReprEncoder
+        from pulser.register.weight_maps import DetuningMap
+
+        def wmap(m):
+            return {tuple(np.round(np.asarray(c, dtype=float), 6).tolist()): float(w)
+                    for c, w in zip(m.trap_coordinates, m.weights)}
+
+        perm = case.get("perm") or list(range(len(dm.weights)))
+        perm = [i for i in perm if i < len(dm.weights)] + [i for i in range(len(dm.weights)) if i not in perm]
+        coords = [list(map(float, dm.trap_coordinates[i])) for i in perm]
+        dm_perm = ctx.must(lambda: DetuningMap(coords, [float(dm.weights[i]) for i in perm], slug=case["slug"]),
+                           C, "DetuningMap(permuted traps)")
+        for what, m in (("register_order", dm), ("given_order", dm_perm)):
+            jd = ctx.must(lambda: json.loads(json.dumps(m, cls=AbstractReprEncoder)), C, "detuning map abstract repr")
+            if sorted(jd) not in (["traps"], ["slug", "traps"]) or any(
+                    sorted(t) != ["weight", "x", "y"] for t in jd["traps"]):
+                ctx.fail(C, "detuning_map:abstract_form", f"{jd}")
+            mb = ctx.must(lambda: _deserialize_det_map(jd), C, "detuning map decode")
+            if wmap(mb) != wmap(m) or mb.slug != m.slug:
+                ctx.fail(C, f"detuning_map:abstract_roundtrip:{what}", f"{wmap(m)} -> {wmap(mb)}")
+            if mb != m:
+                ctx.fail(C, f"detuning_map:abstract_roundtrip_eq:{what}", "")
+        if len(set(map(float, dm.weights))) > 1:
+            ctx.label("detuning_map_distinct_weights")
 
 
 # ------------------------------------------------------------------ configs
@@ -722,15 +751,15 @@ def check_alias(case, ctx: Ctx):
 
 CLAUSES = [
     Clause("noise", check_noise, gen=lambda t: noise_kwargs(),
-           budget={"quick": (4, 300), "thorough": (16, 8000)}),
+           budget={"quick": (4, 300), "thorough": (16, 2500)}),
     Clause("device", check_device, gen=lambda t: device_cases(),
-           budget={"quick": (4, 120), "thorough": (16, 3000)}),
+           budget={"quick": (4, 120), "thorough": (16, 1000)}),
     Clause("register", check_register, gen=lambda t: reg_cases(),
-           budget={"quick": (2, 200), "thorough": (16, 4000)}),
+           budget={"quick": (2, 200), "thorough": (16, 1500)}),
     Clause("config", check_config, gen=lambda t: config_cases(),
-           budget={"quick": (4, 200), "thorough": (16, 5000)}),
+           budget={"quick": (4, 200), "thorough": (16, 2000)}),
     Clause("results", check_results, gen=lambda t: results_cases(),
-           budget={"quick": (1, 200), "thorough": (8, 3000)}),
+           budget={"quick": (1, 200), "thorough": (8, 1000)}),
     Clause("aliasing", check_alias, gen=lambda t: alias_cases(),
-           budget={"quick": (1, 200), "thorough": (8, 3000)}),
+           budget={"quick": (1, 200), "thorough": (8, 1000)}),
 ]
